@@ -5,6 +5,9 @@
 //!        raise(lower(source)), from several register valuations and difficulties.
 //! corr   `(low CFG (body ...))`: emitted instruction stream of the real Lowerer under TestLanguage ==
 //!        Lean lowering model, for straight-line assignment/call bodies under several intrinsic tables.
+//! corr   `(lowj CFG (body ...))`: the same for bodies with labels, `if|unless (c) goto L [@ t]`, `goto L [@ t]`,
+//!        counting jumps, ternaries and relative time labels (Lean `Lower.compileJ`); jump offsets are compared
+//!        as the position of the target instruction in the emitted stream.
 
 use super::c05::{SIG_DIRECT, SIG_SWITCH};
 use super::lw::{self, BodyGen, Cfg, GenOpts, Lower};
@@ -161,6 +164,19 @@ fn nan_at_float_jump(l: &mut lw::Lowered, val: &Sexp) -> bool {
 
 pub const SIG_NESTED: &str = "nested-diff-switch-loses-inner-cases";
 pub const SIG_NAN: &str = "float-comparison-negated-by-compiler-sees-nan";
+pub const SIG_LOC: &str = "explicit-jump-time-dropped-when-jump-has-no-time-argument";
+
+/// `goto L @ t` / `if (c) goto L @ t` somewhere in the body
+fn has_explicit_jump_time(stmts: &[Sexp]) -> bool {
+    fn walk(s: &Sexp) -> bool {
+        match s.head() {
+            Some("goto") => s.args().len() > 1,
+            Some("ifgoto") => s.args().len() > 3,
+            _ => matches!(s, Sexp::List(v) if v.iter().any(walk)),
+        }
+    }
+    stmts.iter().any(walk)
+}
 
 /// `(a:b:c:d)` nested directly as a case of another switch, resolved per difficulty: the same
 /// expression for the VM, without any switch inside a switch case
@@ -205,6 +221,13 @@ fn eval_vm(case: &Sexp) -> Sexp {
         let flat: Vec<Sexp> = stmts.iter().map(flatten_switches).collect();
         let r2 = run_vm_case(&cfg, full_raise, &flat, &vals);
         if r2.head() == Some("pass") { return fail(SIG_NESTED, r.args()[1].as_atom().to_string()); }
+    }
+    // a mismatch that disappears when the jump instructions get a time argument is the dropped explicit jump time
+    if r.head() == Some("fail") && r.args()[0].as_atom().starts_with("vm-mismatch") && cfg.table & lw::T_LOC_ONLY != 0 && has_explicit_jump_time(&stmts) {
+        let mut with_time = cfg.clone();
+        with_time.table &= !lw::T_LOC_ONLY;
+        let r2 = run_vm_case(&with_time, full_raise, &stmts, &vals);
+        if r2.head() == Some("pass") { return fail(SIG_LOC, r.args()[1].as_atom().to_string()); }
     }
     r
 }
@@ -287,6 +310,41 @@ fn opts(table: u32, control: bool, model: bool) -> GenOpts {
     GenOpts { table, control, switches: true, ternary: !model, anti: false, diff_labels: !model, max_depth: 3, time_labels: !model, model_fragment: model }
 }
 
+/// intrinsic tables of the jump correspondence: native conditional jump per comparison / for some comparisons only
+/// (alone, or next to the cmp+jmp pair) / the pair only / none; either or both counting jumps or none; both
+/// argument orders; with and without an unconditional jump; with the fallback encodings of the arithmetic
+pub const JUMP_TABLES: &[u32] = &[
+    0,
+    lw::T_TWO_PART,
+    lw::T_COUNT_GT | lw::T_TIME_FIRST,
+    lw::T_TWO_PART | lw::T_TIME_FIRST | lw::T_BOTH_COUNT | lw::T_NO_UNOPS,
+    lw::T_TWO_PART | lw::T_FEW_COND | lw::T_BOTH_COUNT,
+    lw::T_BOTH_COUNT | lw::T_NO_ASSIGN_OPS | lw::T_NO_UNOPS,
+];
+/// tables in which some jump statements cannot be compiled (the rejection must be the same diagnostic)
+pub const JUMP_TABLES_RESTRICTED: &[u32] = &[
+    lw::T_FEW_COND,
+    lw::T_FEW_COND | lw::T_TIME_FIRST | lw::T_NO_ASSIGN_OPS | lw::T_NO_UNOPS | lw::T_NO_MUL_SUB,
+    lw::T_NO_COND | lw::T_NO_COUNT,
+    lw::T_NO_JMP,
+    lw::T_NO_JMP | lw::T_TWO_PART | lw::T_COUNT_GT,
+    lw::T_LOC_ONLY,
+    lw::T_LOC_ONLY | lw::T_TWO_PART | lw::T_BOTH_COUNT,
+];
+
+/// `(lowj CFG (body ...))`: like `c05::eval_assign`, with jump offsets turned into instruction positions
+fn eval_lowj(case: &Sexp) -> Sexp {
+    let cfg = Cfg::from_sexp(&case.args()[0]);
+    let stmts: Vec<Sexp> = case.args()[1].args().to_vec();
+    let sigs = lw::signatures(cfg.table);
+    let r = lw::with_lowered(&cfg, &stmts, |l| Sexp::app("ok", lw::instrs_sexp_labels(&sigs, &l.instrs)));
+    match r {
+        Ok(s) => s,
+        Err(Lower::Warned(w)) => Sexp::app("warn", vec![Sexp::str(w)]),
+        Err(Lower::Rejected { stage, class, .. }) => if stage == "lower" { Sexp::app("err", vec![Sexp::str(class)]) } else { Sexp::app("rejected", vec![Sexp::atom(stage), Sexp::str(class)]) },
+    }
+}
+
 pub const TABLES: &[u32] = &[
     0,
     lw::T_NO_ASSIGN_OPS | lw::T_NO_UNOPS,
@@ -300,12 +358,13 @@ pub const TABLES: &[u32] = &[
 impl Prop for C02 {
     fn id(&self) -> &'static str { "C02" }
     fn relation(&self) -> &'static str {
-        "low: instruction stream (time, opcode, difficulty mask, argument kinds and values) emitted by Lowerer::lower_sub under TestLanguage for straight-line assignment/call bodies == Lean `Lower.compile` under the same intrinsic table and scratch pool; error class on rejection"
+        "low: instruction stream (time, opcode, difficulty mask, argument kinds and values) emitted by Lowerer::lower_sub under TestLanguage for straight-line assignment/call bodies == Lean `Lower.compile` under the same intrinsic table and scratch pool; lowj: the same for bodies with labels, `if|unless (c) goto L [@ t]`, `goto L [@ t]`, counting jumps, ternaries and relative time labels == Lean `Lower.compileJ`, every jump offset compared as the position of its target instruction in the emitted stream, jump times as values; error class on rejection"
     }
     fn rule(&self) -> &'static str {
-        "generated bodies over 8 int / 6 float registers + 2 non-scratch registers, locals in nested blocks, arithmetic/bitwise/logic/comparison/cast/sigil/ternary/difficulty-switch expressions, 12 assignment operators, if/unless/while/do-while/times/loop+break/goto/counting jumps, calls with 0-4 complex arguments, time labels, difficulty labels; x 7 intrinsic tables x pools of 0..8/0..6 scratch registers x 3 (quick) or 8 valuations (boundary + small) x difficulties 0-3; non-trivial = at least one statement needs more than one instruction"
+        "generated bodies over 8 int / 6 float registers + 2 non-scratch registers, locals in nested blocks, arithmetic/bitwise/logic/comparison/cast/sigil/ternary/difficulty-switch expressions, 12 assignment operators, if/unless/while/do-while/times/loop+break/goto/counting jumps, calls with 0-4 complex arguments, time labels, difficulty labels; jump bodies for the model: 1-3 labels placed anywhere, conditions of every shape (comparisons of complex int/float operands, nested && || !, non-comparison expressions, constants, leaves, ternaries and switches inside), counting conditions in all three spellings, explicit jump times, jumps inside nested blocks, rare undefined/duplicate labels, under 11 jump tables (conditional jump per comparison / for == < >= only / cmp+jmp pair / both / none; CountJmp() / CountJmp(>) / both / none; with and without Jmp; `ot` and `to`); x 7 intrinsic tables x pools of 0..8/0..6 scratch registers x 3 (quick) or 8 valuations (boundary + small) x difficulties 0-3; non-trivial = at least one statement needs more than one instruction"
     }
-    fn theorems(&self) -> &'static [&'static str] { &["TruthModel.C02.lowerSet_sound", "TruthModel.C02.lowerAssign_sound_partial", "TruthModel.C02.lowerCall_sound_partial", "TruthModel.C02.alternatives_sound"] }
+    fn theorems(&self) -> &'static [&'static str] { &["TruthModel.C02.lowerSet_sound", "TruthModel.C02.lowerAssign_sound_partial", "TruthModel.C02.lowerCall_sound_partial", "TruthModel.C02.alternatives_sound",
+          "TruthModel.C02.lowerSetJ_eq", "TruthModel.C02.lowerCondJump_sound", "TruthModel.C02.lowerCondJump_reach", "TruthModel.C02.lowerTernary_sound", "TruthModel.C02.nan_negation_witness"] }
     fn timeout_secs(&self) -> u64 { 60 }
 
     fn gen(&self, tier: Tier, rng: &mut Rng) -> Vec<Case> {
@@ -340,6 +399,19 @@ impl Prop for C02 {
             for i in 0..nvals.max(4) { let mut val = lw::valuation(rng, i % 2 == 0); if let Sexp::List(ref mut x) = val { x[1] = Sexp::int((i % 4) as i64); } v.push(val); }
             out.push(Case::search(Sexp::app("vm", v)).tag("vm-nested-switch"));
         }
+        // directed: explicit jump times in a language whose jump instructions carry no time (TH06 ANM `ins_5`)
+        for _ in 0..40 * scale {
+            // (half of them under tables WITH a time argument: the explicit time must arrive)
+            let cfg = Cfg { ints: 8, floats: 6, table: *rng.pick(&[lw::T_LOC_ONLY, lw::T_LOC_ONLY | lw::T_TWO_PART, 0, lw::T_TIME_FIRST | lw::T_COUNT_GT]), simplify: false };
+            let call = |k: i64| Sexp::app("call", vec![Sexp::int(lw::plain_opcode("S") as i64), Sexp::app("i", vec![Sexp::int(k)])]);
+            let t = rng.range(0, 30);
+            let jump = if rng.chance(1, 2) { Sexp::app("goto", vec![Sexp::atom("lab1"), Sexp::int(t)]) }
+                       else { Sexp::app("ifgoto", vec![Sexp::atom("if"), Sexp::app("bin", vec![Sexp::atom("ge"), Sexp::app("reg", vec![Sexp::int(lw::INT_REGS[0] as i64), Sexp::atom("n"), Sexp::atom("raw")]), Sexp::app("i", vec![Sexp::int(rng.range(-3, 3))])]), Sexp::atom("lab1"), Sexp::int(t)]) };
+            let body = vec![call(1), jump, Sexp::app("wait", vec![Sexp::int(rng.range(1, 12))]), call(2), Sexp::app("label", vec![Sexp::atom("lab1")]), call(3), Sexp::app("wait", vec![Sexp::int(rng.range(1, 12))]), call(4)];
+            let mut v = vec![cfg.to_sexp(), Sexp::atom("min"), Sexp::app("body", body)];
+            for i in 0..nvals { v.push(lw::valuation(rng, i % 2 == 0)); }
+            out.push(Case::search(Sexp::app("vm", v)).tag(if cfg.table & lw::T_LOC_ONLY != 0 { "vm-jump-without-time-argument" } else { "vm-explicit-jump-time" }));
+        }
         for _ in 0..4000 * scale {
             let cfg = Cfg { ints: rng.below(9), floats: rng.below(7), table: *rng.pick(&[0, 0, TABLES[1], TABLES[2], TABLES[6]]), simplify: false };
             let mut g = BodyGen::new(rng, opts(cfg.table, false, true));
@@ -348,6 +420,26 @@ impl Prop for C02 {
             let nt = lw::contains_head(&body, "bin") || lw::contains_head(&body, "un");
             out.push(Case::corr(Sexp::app("low", vec![cfg.to_sexp(), Sexp::app("body", body)])).tag(format!("low-table-{}", cfg.table)).trivial(!nt));
         }
+        // correspondence with the Lean model: labels, conditional / counting / unconditional jumps, ternaries
+        for _ in 0..4000 * scale {
+            let table = if rng.chance(4, 5) { *rng.pick(JUMP_TABLES) } else { *rng.pick(JUMP_TABLES_RESTRICTED) };
+            let cfg = Cfg { ints: if rng.chance(2, 3) { 5 + rng.below(4) } else { rng.below(9) }, floats: if rng.chance(2, 3) { 3 + rng.below(4) } else { rng.below(7) }, table, simplify: false };
+            let mut o = opts(cfg.table, false, true);
+            o.ternary = true;
+            o.time_labels = true;
+            let mut g = BodyGen::new(rng, o);
+            g.jump_model = true;
+            let n = 1 + g.rng.below(5);
+            let body = g.jump_body(n);
+            let mut c = Case::corr(Sexp::app("lowj", vec![cfg.to_sexp(), Sexp::app("body", body.clone())])).tag(format!("lowj-table-{}", cfg.table));
+            for (head, tag) in [("ifgoto", "lowj-cond-jump"), ("predec", "lowj-count-jump"), ("tern", "lowj-ternary"), ("goto", "lowj-goto")] { if lw::contains_head(&body, head) { c = c.tag(tag); } }
+            if body.iter().any(|s| s.head() == Some("ifgoto") && matches!(s.args()[1].head(), Some("bin")) && matches!(s.args()[1].args()[0].as_atom(), "lor" | "land")) { c = c.tag("lowj-logic-cond"); }
+            if body.iter().any(|s| s.head() == Some("ifgoto") && s.args()[1].head() == Some("un")) { c = c.tag("lowj-negated-cond"); }
+            if body.iter().any(|s| matches!(s.head(), Some("ifgoto") | Some("goto")) && s.args().len() > if s.head() == Some("goto") { 1 } else { 3 }) { c = c.tag("lowj-explicit-time"); }
+            out.push(c);
+        }
+        // development aid: `VERIF_ONLY=<head>` keeps only the cases of one kind
+        if let Ok(h) = std::env::var("VERIF_ONLY") { out.retain(|c| c.sexp.head() == Some(h.as_str())); }
         lw::dump_cases(&out);
         out
     }
@@ -356,13 +448,14 @@ impl Prop for C02 {
         match case.head() {
             Some("vm") => eval_vm(case),
             Some("low") => super::c05::eval_assign(case, false),
+            Some("lowj") => eval_lowj(case),
             _ => Sexp::atom("bad-case"),
         }
     }
 
     fn neighbours(&self, case: &Sexp, rng: &mut Rng) -> Vec<Case> {
         // model and implementation lower a body differently: does the implementation's code still behave like the source?
-        if case.head() != Some("low") { return vec![]; }
+        if !matches!(case.head(), Some("low") | Some("lowj")) { return vec![]; }
         let a = case.args();
         let mut v = vec![a[0].clone(), Sexp::atom("min"), a[1].clone()];
         for i in 0..8 { v.push(lw::valuation(rng, i % 2 == 0)); }
